@@ -194,8 +194,21 @@ def u8_match_table(body, kind_names):
             if st["k"] == "assign" and st["rv"]["k"] == "binop" and st["rv"]["op"] == "Eq":
                 a, c = G.describe(body, st["rv"]["a"]), G.describe(body, st["rv"]["b"])
                 val = None
+                def fold(x):
+                    # an explicit discriminant (`Remove = 1`) compiles `K as u8` to <its constant> + <offset>, two constants added
+                    if x.kind == "const" and isinstance(x.v, int):
+                        return x.v
+                    if x.kind == "binop" and str(x.v).replace("WithOverflow", "") == "Add" and len(x.args) == 2:
+                        l, r = fold(x.args[0]), fold(x.args[1])
+                        return l + r if l is not None and r is not None else None
+                    if x.kind in ("cast",) and x.args:
+                        return fold(x.args[0])
+                    return None
+
                 for v in (a, c):
-                    if v.kind == "const":
+                    if fold(v) is not None:
+                        val = fold(v)
+                    elif v.kind == "const":
                         val = v.v
                     elif v.kind == "discr" and v.args and v.args[0].kind == "agg":
                         val = kind_names.get(v.args[0].v)
@@ -536,7 +549,14 @@ def check(ctx, rep):
             want = {"id": "get_ref(_1*, conststr:id)", "ts": "get_date_time(_1*, conststr:mod)"}[nm]
             ret = repr(G.describe_place(b, {"l": 0, "p": []}))
             nget += 1
-            if ret.endswith("HaystackDict>::" + want):
+            tag, kindname = {"id": ("id", "Ref"), "ts": ("mod", "DateTime")}[nm]
+            direct = False
+            if not ret.endswith("HaystackDict>::" + want):
+                # written out: the value stored under the conventional tag, yielded exactly when it is of the kind
+                keys = [repr(G.describe(b, t["args"][1])) for _bi, t in b.calls() if strip_generics(mir.callee_name(t) or "").endswith(("BTreeMap::get", "Dict::get")) and len(t["args"]) > 1]
+                r0 = positive_variants(b, vnames)
+                direct = keys == ["conststr:%s" % tag] and r0 is not None and {x.rstrip("?") for x in r0[0]} == {kindname} and not r0[2]
+            if ret.endswith("HaystackDict>::" + want) or direct:
                 rep.ok("R-KINDS", "dict-shortcut:%s" % nm, b.where(), "%s() = %s" % (nm, want))
             else:
                 rep.bad("R-KINDS", "R-KINDS:dict-shortcut:%s" % nm, b.where(), "HaystackDict::%s returns %s, expected self.%s" % (nm, ret[:120], want))
@@ -544,8 +564,8 @@ def check(ctx, rep):
             nget += 1
             cs = _DR._calls(prog, b)
             makers = [c for c in cs if "val::reference::Ref" in c[2] and not c[2].endswith(("PartialEq>::eq", "Deref>::deref"))]
-            odd = [c for c in makers if not (c[2].endswith("Default>::default") or (c[2].endswith("Clone>::clone") and c[3] and re.fullmatch(r".*HaystackDict>::get_ref\(_1\*, conststr:id\) as Some\.0\**", c[3][0])))]
-            src = [c for c in cs if c[2].endswith("HaystackDict>::get_ref") and c[3][1:] == ["conststr:id"]]
+            odd = [c for c in makers if not (c[2].endswith("Default>::default") or (c[2].endswith("Clone>::clone") and c[3] and re.fullmatch(r".*HaystackDict>::(get_ref\(_1\*, conststr:id\)|id\(_1\*\)) as Some\.0\**", G.expand_locals(c[0], c[3][0]))))]
+            src = [c for c in cs if (c[2].endswith("HaystackDict>::get_ref") and c[3][1:] == ["conststr:id"]) or (c[2].endswith("HaystackDict>::id") and c[3] == ["_1*"])]
             if makers and not odd and len(src) == 1:
                 rep.ok("R-KINDS", "dict-shortcut:safe_id", b.where(), "a clone of the stored id Ref, or Ref::default()")
             else:
